@@ -270,19 +270,56 @@ func deferredReset(c *an.Ctx, r *runnerRoles, rule string) {
 
 func errorChainToMain(c *an.Ctx, r *runnerRoles, rule string) {
 	p := c.P
-	s := resolveSched(c, rule)
-	if !s.ok {
+	runStage := findRunStage(p)
+	schedule := p.Func("pkg/scheduler", "Scheduler", "Schedule")
+	if runStage == nil || schedule == nil {
+		c.Und(rule, "scheduler:runner-caller", token.NoPos, "cannot find Scheduler.Schedule and the function of pkg/scheduler that invokes Runner.Run")
 		return
 	}
 	exempt := map[string]string{
-		an.Short(s.body) + ":err(" + an.Short(s.runStage) + ")":                               "the stage goroutine records the error as the run's error, which Schedule returns (decided by C02.2 / C02.4)",
-		"(*internal/watch.Watcher).handle:err((*pkg/runner.TaskRunner).Run)":                   "watch mode: a failed event run is logged and the watcher keeps serving (C20.5); not a CLI target",
-		"(*internal/watch.Watcher).Run$1:err((*pkg/runner.TaskRunner).Run)":                    "watch mode: the initial run's failure is logged; not a CLI target",
-		"cmd/taskctl.newWatchCommand$2$2:err((*internal/watch.Watcher).Run)":                   "watch mode: a watcher's failure is logged by its goroutine; not a CLI target",
+		"(*internal/watch.Watcher).handle:err((*pkg/runner.TaskRunner).Run)": "watch mode: a failed event run is logged and the watcher keeps serving (C20.5); not a CLI target",
+		"(*internal/watch.Watcher).Run$1:err((*pkg/runner.TaskRunner).Run)":  "watch mode: the initial run's failure is logged; not a CLI target",
+		"cmd/taskctl.newWatchCommand$2$2:err((*internal/watch.Watcher).Run)": "watch mode: a watcher's failure is logged by its goroutine; not a CLI target",
 	}
-	chain := errChain(c, rule, []*ssa.Function{r.execute, s.schedule}, nil, exempt)
-	// C02.4 is a premise of this chain: restate its two facts here
-	errorReport(c, s, rule)
+	// the function that records a stage's error as the run's error hands it to Schedule's caller (C02.2 / C02.4)
+	for _, rec := range findErrorRecorders(p) {
+		exempt[an.Short(rec)+":err("+an.Short(runStage)+")"] = "the stage's error is recorded as the run's error, which Schedule returns (decided by C02.2 / C02.4)"
+	}
+	chain := errChain(c, rule, []*ssa.Function{r.execute, schedule}, nil, exempt)
+	// two facts of C02.4 are premises of this chain: restated here
+	if last := p.Func("pkg/scheduler", "ExecutionGraph", "LastError"); last != nil {
+		okLast := true
+		for _, ret := range an.Returns(last) {
+			ap := an.AccessPath(an.RetVal(ret, 0))
+			if ap.LastField() != "error" || !an.SameValue(ap.Base, last.Params[0]) {
+				okLast = false
+			}
+		}
+		c.Check(okLast, rule, an.Short(last)+":returns", last.Pos(), "LastError returns the recorded error", "LastError does not return ExecutionGraph.error")
+		okSched := true
+		for _, ret := range an.Returns(schedule) {
+			good := false
+			for _, v := range an.Sources(an.RetVal(ret, 0)) {
+				if call, ok := v.(*ssa.Call); ok {
+					for _, callee := range p.Callees(&call.Call) {
+						if callee == last && an.SameValue(call.Call.Args[0], schedule.Params[1]) {
+							good = true
+						}
+					}
+				}
+				if ap := an.AccessPath(v); ap.LastField() == "error" && an.SameValue(ap.Base, schedule.Params[1]) {
+					good = true
+				}
+			}
+			if !good {
+				okSched = false
+			}
+		}
+		c.Check(okSched, rule, an.Short(schedule)+":return", schedule.Pos(), "Schedule returns the graph's recorded error", "Schedule does not return the graph's recorded error on every exit")
+	}
+	if len(findErrorRecorders(p)) == 0 {
+		c.Bad(rule, "ExecutionGraph.error:writers", schedule.Pos(), "nothing records a stage's error as the run's error")
+	}
 	// tops of the chain: functions with no module caller must be CLI actions or main
 	var tops []string
 	okTops := true
